@@ -234,7 +234,7 @@ def tiers(ctx):
     rng = random.Random(ctx.seed)
     fl = frozenset(rng.sample(sorted(F16 - S("")), 5)) | S("")
     cl = frozenset(rng.sample(sorted(ALLCLS - S("w1", "two")), 10)) | S("w1", "two")
-    sim = dict(num=70, depth=40, limit=500) if q else dict(num=1500, depth=60, limit=12000)
+    sim = dict(num=70, depth=40, limit=500) if q else dict(num=900, depth=60, limit=6000)
     simc = layer("CS_mix", MaxBlocks=6 if q else 8, MinBlocks=3, MaxRuns=3, Kinds=ALLK, HLevels=S(1, 2, 4, 8), LiTypes=S("bul", "num"),
                  LiLevels=S(0, 2), FlagNames=fl, FirstCls=cl, MoreCls=cl, EmptyCls=S("none", "ws", "empty"), TblShapes=S("1x1", "2x2", "3x2", "2x3"),
                  TblOffs=S(0, 4), OptArity=2, Apis=S("string", "file"), Cos=S("ctor", "call"), Origins=S("mem", "open"),
